@@ -120,7 +120,7 @@ CHECKS = {
         "type aliases, type definitions); the real checker decides acceptance and the result type; every accepted cell is placed in every value context that type admits (boxing, "
         "initialiser, assignment, value argument, return, condition, list element, numeric coercions, print) and driven through kddp -> .ll, llvm-as, kddp -> .o at -O1/-O2 and the "
         "gcc link; TLC validates one pipeline trace per (cell, context). Failing batches are bisected to single cells.",
-   note="quick: all unary/cast/type-check cells and a seeded third of the binary/ternary tables, one random context per cell plus all contexts for 15 %; thorough: everything. "
+   note="quick: all cells; every accepted cell boxed plus two seed-chosen contexts, all contexts for numeric results and a seeded 20 % of the rest; thorough: all contexts. "
         "The contexts are built from the checker's own result type (the property is about lowering vs. assigned type).",
    technique="TLA+ pipeline invariant + TLC trace validation over the exhaustive operator x type-class x context table",
    ref="§4 C02"),
